@@ -145,3 +145,54 @@ func verifHarness_C19_InFlightDuplicate41() {
 	l := r.dir.leaves["f"]
 	rt.Assert(l.opens[0] == 1 && l.outstanding(0) == 1, "the duplicated OPEN took effect exactly once")
 }
+
+// The duplicate arrives while the original is held inside the file system,
+// with or without the client asking for the reply to be cached: the duplicate
+// completes with the original's result, and later retransmissions are never
+// executed again.
+func verifHarness_C19_HeldDuplicate41() {
+	rt.MustCover("held:cached", "held:uncached", "held:late-retry-uncached")
+	r := verifNewRig41("f")
+	r.login("client-a", 1)
+	r.uncached = rt.NondetBool("the client does not ask for the reply to be cached")
+	r.dir.blockInOpen = make(chan struct{})
+	var res [2]*nfsv4.Compound4res
+	rt.Go(func() { res[0] = r.sequenceRaw(0, 1, verifOpenArgs(r, "o1", "f", virtual.ShareMaskRead)...) })
+	rt.Quiesce() // the original now waits inside the file system
+	rt.Assert(res[0] == nil, "the original is still being processed")
+	rt.Go(func() { res[1] = r.sequenceRaw(0, 1, verifOpenArgs(r, "o1", "f", virtual.ShareMaskRead)...) })
+	rt.Quiesce() // the duplicate now waits for the original
+	rt.Assert(res[1] == nil, "the duplicate does not complete before the original")
+	rt.Assert(r.dir.leaves["f"].opens[0] == 0, "the duplicate is not executed")
+	close(r.dir.blockInOpen)
+	rt.WaitAll()
+	r.checkLocks()
+	rt.Assert(res[0] != nil && res[1] != nil, "both the original and the duplicate complete")
+	rt.Assert(res[0].Status == nfsv4.NFS4_OK, "the original succeeds")
+	rt.Assert(res[1].Status == res[0].Status && len(res[0].Resarray) == len(res[1].Resarray), "the duplicate completes with the original's result")
+	for i := range res[0].Resarray {
+		rt.Assert(res[0].Resarray[i] == res[1].Resarray[i], "the duplicate completes with the original's result")
+	}
+	if r.uncached {
+		rt.Cover("held:uncached")
+	} else {
+		rt.Cover("held:cached")
+	}
+	// A retransmission after completion: the cached reply, or a refusal if the
+	// reply was not to be cached; never a second execution.
+	before := verifSnapshot41(r)
+	late := r.sequenceRaw(0, 1, verifOpenArgs(r, "o1", "f", virtual.ShareMaskRead)...)
+	r.checkLocks()
+	rt.Assert(verifSnapshot41(r) == before, "a retransmission is not executed again")
+	if late.Status == nfsv4.NFS4ERR_RETRY_UNCACHED_REP {
+		rt.Assert(r.uncached, "a reply the client asked to be cached is kept")
+		rt.Cover("held:late-retry-uncached")
+	} else {
+		rt.Assert(late.Status == res[0].Status && len(late.Resarray) == len(res[0].Resarray), "a retransmission gets the original reply")
+		for i := range res[0].Resarray {
+			rt.Assert(late.Resarray[i] == res[0].Resarray[i], "a retransmission gets the very reply given the first time")
+		}
+	}
+	l := r.dir.leaves["f"]
+	rt.Assert(l.opens[0] == 1 && l.outstanding(0) == 1, "the duplicated OPEN took effect exactly once")
+}
